@@ -1,6 +1,6 @@
-SPECIFICATION SpecNums
+SPECIFICATION SpecStr
 CONSTANTS
-  Bug = ""
+  Bug = "EscapeNIsLetter"
   N0 = 0
   N1 = 0
   N2 = 0
@@ -9,9 +9,9 @@ CONSTANTS
   MaxArgs = 0
   Fns = {}
   Rich = FALSE
-  TextLen = 0
+  TextLen = 3
   Chars = {}
-  IntParts = {0, 16383}
+  IntParts = {}
   Sample = 1
-INVARIANTS InvScanPrint InvUnitsAsInTeX
+INVARIANTS InvStrRoundTrip
 CHECK_DEADLOCK FALSE
